@@ -632,6 +632,16 @@ def scenario_compaction(seed):
                 w.db.set_flush_count(hist.flush_count)
         desc['batches'] = batches
         desc['completed'] = completed
+        if mode == 'abandoned-then-index' and not completed:
+            # the statement restricts this clause to databases where no script hash ends up with more compacted
+            # rows than the flush count
+            rows = {}
+            for k, _v in hist.db.iterator(prefix=b''):
+                if len(k) == HASHX_LEN + 2:
+                    rows[k[:-2]] = max(rows.get(k[:-2], 0), struct.unpack('>H', k[-2:])[0])
+            if rows and max(rows.values()) > w.db.state.flush_count:
+                desc['skipped'] = 'outside the stated restriction (more compacted rows than the flush count)'
+                return desc, None
         w.close()
         if mode == 'killed-between-batches' and not completed:
             # resume with the tool
@@ -669,15 +679,30 @@ MODES = {'c01': scenario_forward, 'c02': scenario_forward, 'c03': scenario_reorg
 
 def main():
     req = json.loads(sys.stdin.read() or '{}')
-    mode = req.get('mode') or 'c01'
+    o = req.get('obligation') or ''
+    by_obligation = None
+    if 'clear_excess' in o and 'undo' not in o:
+        by_obligation = 'c04+c14'
+    elif 'ompact' in o:
+        by_obligation = 'c14'
+    elif 'undo' in o:
+        by_obligation = 'c15'
+    elif 'flush_backup' in o or 'History.backup' in o:
+        by_obligation = 'c03'
+    elif 'flush' in o or 'write_utxo_state' in o or 'LogicalFile' in o:
+        by_obligation = 'c04'
+    elif 'backup_block' in o or 'reorg' in o:
+        by_obligation = 'c03'
+    mode = req.get('mode') or by_obligation or 'c01'
     rounds = int(req.get('rounds') or 30)
     seed0 = int(req.get('seed') or 0) * 100003
     known = set(req.get('known') or [])
-    fn = MODES[mode]
+    modes = mode.split('+')
     found_known = None
-    for i in range(rounds):
+    for i in range(rounds * len(modes)):
+        fn = MODES[modes[i % len(modes)]]
         try:
-            desc, bad = fn(seed0 + i)
+            desc, bad = fn(seed0 + i // len(modes))
         except BaseException as e:   # noqa
             import traceback
             desc, bad = {'seed': seed0 + i}, f'scenario raised {e!r}: {traceback.format_exc()[-600:]}'
